@@ -267,7 +267,11 @@ func evalHevcSps(c *Ctx, k caseT, out string) {
 	} else {
 		data = Unhx(strings.Fields(k.line)[2])
 	}
-	r := implHevcSps(data)
+	gr, ok := guard(c, k, "hevc-sps-decode", func() interface{} { return implHevcSps(data) })
+	if !ok {
+		return
+	}
+	r := gr.(implVideo)
 	modelOutcome := "ok"
 	if e, bad := m["err"]; bad {
 		modelOutcome = "err=" + e
@@ -293,27 +297,46 @@ func evalHevcSps(c *Ctx, k caseT, out string) {
 		}
 	}
 	if r.outcome != "escaped-panic" {
-		if r.ready != (r.outcome == "ok") || (r.ready && !(r.mw == r.w && r.mh == r.h && r.mfixed == r.fixed && sameF(r.mfps, r.fps))) {
+		// … and nothing at all when Decode fails (Model/MetaReady.lean `ready`: the marker Width == 0 stays)
+		if r.ready != (r.outcome == "ok") || (r.ready && !(r.mw == r.w && r.mh == r.h && r.mfixed == r.fixed && sameF(r.mfps, r.fps))) ||
+			(!r.ready && (r.mw != 0 || r.mh != 0 || r.mfixed || r.mfps != 0)) {
 			c.Find(Finding{Kind: "corr", Class: "hevc-metadata-ready", Case: k.line, Impl: fmt.Sprintf("ready=%v %d,%d,%v,%v", r.ready, r.mw, r.mh, r.mfixed, r.mfps), Model: out})
 		}
 	} else {
 		c.Find(Finding{Kind: "oracle", Class: "hevc-panic-escapes", Case: k.line, Impl: r.outcome, Spec: "error or result"})
 	}
-	if c.Rng.Intn(4) == 0 && r.outcome != "escaped-panic" {
-		d := ""
-		if modelOutcome == "ok" {
-			d = m["dims"]
+	if r.outcome != "escaped-panic" {
+		// through SDP: width and height against the standard; fixed flag and rate against the model (their difference from
+		// the standard is judged once, in the direct oracle below)
+		sp := ""
+		if q := strings.Split(m["spec"], ","); len(q) == 4 {
+			sp = q[0] + "," + q[1] + ",*,*"
 		}
-		checkSdp(c, k, "h265", data, d, m["spec"])
+		sdpCaseOf(c, k, "h265", data, sp, derive)
 	}
 	if k.kind == "hevcspsenc" && k.wf {
 		spec := m["spec"]
 		c.Count("hevc-sps:class-" + k.class)
 		if r.outcome != "ok" {
 			c.Find(Finding{Kind: "oracle", Class: k.class, Case: k.line, Impl: implS, Spec: "ok dims=" + spec, Detail: "valid SPS rejected"})
-		} else if !dimsEq(spec, r.w, r.h, r.fixed, r.fps) {
-			c.Find(Finding{Kind: "oracle", Class: k.class, Case: k.line, Impl: fmt.Sprintf("%d,%d,%s,%v", r.w, r.h, B01(r.fixed), r.fps), Spec: spec,
-				Detail: "width,height,fixed,fps reported for a valid SPS differ from the standard's"})
+		} else if q := strings.Split(spec, ","); len(q) == 4 {
+			if !dimsEqSpec(q[0]+","+q[1]+",*,*", r.w, r.h, r.fixed, r.fps) {
+				c.Find(Finding{Kind: "oracle", Class: k.class, Case: k.line, Impl: fmt.Sprintf("%d,%d", r.w, r.h), Spec: q[0] + "," + q[1],
+					Detail: "width,height reported for a valid SPS differ from the standard's"})
+			}
+			// fixed-rate flag and picture rate: the standard's (E.3.2: fixed_pic_rate_within_cvs_flag[HighestTid],
+			// elemental_duration_in_tc_minus1) — the class is computed by the specification from the tree (`rate=`): a tree on
+			// which the code's convention "timing information ⇒ fixed, one tick per picture" is not the standard's belongs to
+			// one of the two known classes, any other difference to the tree's own class
+			if !dimsEqSpec("*,*,"+q[2]+","+q[3], r.w, r.h, r.fixed, r.fps) {
+				cl := m["rate"]
+				if cl == "agree" || cl == "" {
+					cl = k.class
+				}
+				c.Find(Finding{Kind: "oracle", Class: cl, Case: k.line, Impl: fmt.Sprintf("fixed=%s fps=%v", B01(r.fixed), r.fps), Spec: "fixed=" + q[2] + " fps=" + q[3],
+					Detail: "fixed-rate flag / picture rate reported for a valid SPS differ from the standard's (H.265 E.3.2)"})
+			}
+			c.Count("hevc-sps:rate-" + m["rate"])
 		}
 	}
 }
@@ -326,7 +349,11 @@ func evalHevcVps(c *Ctx, k caseT, out string) {
 	} else {
 		data = Unhx(strings.Fields(k.line)[2])
 	}
-	outcome, dump := implHevcVps(data)
+	gr, ok := guard(c, k, "hevc-vps-decode", func() interface{} { o, d := implHevcVps(data); return [2]string{o, d} })
+	if !ok {
+		return
+	}
+	outcome, dump := gr.([2]string)[0], gr.([2]string)[1]
 	modelOutcome := "ok"
 	if e, bad := m["err"]; bad {
 		modelOutcome = "err=" + e
